@@ -54,6 +54,29 @@ func buildTo(r *rand.Rand, ops []string, slot int, final map[uint64]uint64, extr
 	for _, x := range present {
 		ops = append(ops, opDel(slot, x, 9))
 	}
+	if detours && r.Intn(4) == 0 {
+		// a dip: everything is deleted again (down through every height to the empty tree) and
+		// re-inserted in another order on the same in-memory tree
+		var ks []uint64
+		for k := range final {
+			ks = append(ks, k)
+		}
+		sort.Slice(ks, func(i, j int) bool { return ks[i] < ks[j] })
+		r.Shuffle(len(ks), func(i, j int) { ks[i], ks[j] = ks[j], ks[i] })
+		keep := 0
+		if len(ks) > 0 {
+			keep = r.Intn(2)
+		}
+		for _, k := range ks[keep:] {
+			ops = append(ops, opDel(slot, k, final[k]))
+		}
+		ops = append(ops, fmt.Sprintf("thresholds %d", slot))
+		r.Shuffle(len(ks), func(i, j int) { ks[i], ks[j] = ks[j], ks[i] })
+		for _, k := range ks {
+			ops = append(ops, opIns(slot, k, final[k]))
+		}
+	}
+	ops = append(ops, fmt.Sprintf("thresholds %d", slot))
 	return ops
 }
 
@@ -107,7 +130,7 @@ func genCanonCase(r *rand.Rand, cfg Cfg) Case {
 		for _, x := range ex {
 			ops = append(ops, opDel(2, x, 9))
 		}
-		ops = append(ops, "canonroot 2")
+		ops = append(ops, "thresholds 2", "canonroot 2")
 	}
 	ops = append(ops, "canonroot 0", "canonroot 1", "iter 0", "iter 1")
 	return Case{noCache(cfg), ops}
